@@ -39,6 +39,8 @@ pub struct Entry {
     pub load: Option<fn(&Term, &str, u32) -> String>,
     /// bytes of a (corrupted) file, loader, repetitions -> growth of live heap bytes and mappings
     pub leak: Option<fn(&[u8], &str, usize) -> String>,
+    /// bytes of a file, loader -> outcome of one load through the file-backed entry point
+    pub fload: Option<fn(&[u8], &str) -> String>,
     /// value term, base residue -> allocator calls / bytes during deserialize_eps, and the result
     pub alloc: Option<fn(&Term, usize) -> String>,
     /// value term, writer spec -> result and bytes accepted by a faulty writer
@@ -257,6 +259,7 @@ where
             None => "badterm".into(),
         }),
         leak: Some(ops::leak_generic::<T>),
+        fload: Some(ops::fload_generic::<T>),
         alloc: Some(|t, r| match catch(|| T::from_term(t)) {
             Some(v) => match ser_generic(&v) {
                 Ok((_, bytes)) => alloc_generic::<T>(&bytes, r),
